@@ -29,6 +29,15 @@ pub assume_specification [ f64::max ] (a: f64, b: f64) -> f64;
 // `(0.0..=1.0).contains(&rank)`: the documented argument range of quantile (floats stay uninterpreted)
 pub uninterp spec fn f_in_unit(x: f64) -> bool;
 #[verifier::external_body] fn vx_in_unit_interval(rank: &f64) -> (r: bool) ensures r == f_in_unit(*rank) { (0.0..=1.0).contains(rank) }
+// R12b: a DOCUMENTED panic (argument validation promised by the API docs: "# Panics" of new / rank / quantile / cdf / pmf) is modelled as
+// 'returns only if the condition holds': the condition is a tagged POSTCONDITION (`*_validated`) instead of a precondition, so weakening
+// or removing the check is noticed.  The bodies are the original statements.
+#[verifier::external_body] fn vx_documented_panic(c: bool) ensures c { assert!(c); }
+#[verifier::external_body] fn vx_documented_unreachable() ensures false { panic!() }
+// what check_split_points validates (documented for cdf / pmf): not a single NaN, strictly increasing (which excludes NaN for len >= 2)
+spec fn sp_valid(s: Seq<f64>) -> bool {
+    (s.len() == 1 ==> !f_is_nan(s[0])) && (forall|i: int| 0 <= i < s.len() - 1 ==> f_lt(#[trigger] s[i], s[i + 1]))
+}
 #[verifier::external_body] fn vx_f64_infinity() -> f64 { f64::INFINITY }
 #[verifier::external_body] fn vx_f64_neg_infinity() -> f64 { f64::NEG_INFINITY }
 // error.rs: only the fact that an error value is built
@@ -213,10 +222,11 @@ self . weight . get ( ) as f64 }
 #[verifier::external_body]
 fn centroid_cmp(a: &Centroid, b: &Centroid) -> Ordering { unimplemented!() }
 
-fn check_split_points ( split_points : & [ f64 ] ) requires split_points @ . len ( ) == 1 ==> ! f_is_nan ( split_points @ [ 0 ] ) , forall | i : int | 0 <= i < split_points @ . len ( ) - 1 ==> f_lt ( # [ trigger ] split_points @ [ i ] , split_points @ [ i + 1 ] ) , {
+fn check_split_points ( split_points : & [ f64 ] ) ensures
+/*@C10.split_points_validated*/ sp_valid ( split_points @ ) , {
 let len = split_points . len ( ) ;
 if len == 1 && split_points [ 0 ] . is_nan ( ) {
-panic! ( ) ;
+vx_documented_unreachable ( ) ;
 }
 let mut vx_n1 = 0 ;
 let vx_end1 = len . saturating_sub ( 1 ) ;
@@ -225,7 +235,8 @@ while vx_n1 < vx_end1 invariant
 0int }
 else {
 len - 1 }
-) , len == split_points @ . len ( ) , forall | i : int | 0 <= i < split_points @ . len ( ) - 1 ==> f_lt ( # [ trigger ] split_points @ [ i ] , split_points @ [ i + 1 ] ) , decreases vx_end1 - vx_n1 {
+) , len == split_points @ . len ( ) , vx_n1 <= vx_end1 ,
+/*@C10.split_points_validated*/ forall | i : int | 0 <= i < vx_n1 ==> f_lt ( # [ trigger ] split_points @ [ i ] , split_points @ [ i + 1 ] ) , decreases vx_end1 - vx_n1 {
 let i = vx_n1 ;
 vx_n1 += 1 ;
 proof {
@@ -234,7 +245,7 @@ axiom_f64_cmp_deterministic ( ) ;
 if split_points [ i ] < split_points [ i + 1 ] {
 continue ;
 }
-panic! ( ) ;
+vx_documented_unreachable ( ) ;
 }
 }
 
@@ -262,8 +273,10 @@ impl TDigestMut {
     spec fn empty(&self) -> bool { self.centroids@.len() == 0 && self.buffer@.len() == 0 }
     spec fn same_cfg(&self, o: &TDigestMut) -> bool { self.k == o.k && self.centroids_capacity == o.centroids_capacity }
 
-    fn make ( k : u16 , reverse_merge : bool , min : f64 , max : f64 , mut centroids : Vec < Centroid > , centroids_weight : u64 , mut buffer : Vec < f64 > , ) -> ( r : Self ) requires k >= 10 ensures r . cfg_ok ( ) , r . k == k , r . centroids @ == centroids @ , r . buffer @ == buffer @ , r . centroids_weight == centroids_weight , r . reverse_merge == reverse_merge , {
-assert! ( k >= 10 ) ;
+    fn make ( k : u16 , reverse_merge : bool , min : f64 , max : f64 , mut centroids : Vec < Centroid > , centroids_weight : u64 , mut buffer : Vec < f64 > , ) -> ( r : Self ) ensures
+/*@C10.make.k_validated*/ k >= 10 , r . cfg_ok ( ) , r . k == k , r . centroids @ == centroids @ , r . buffer @ == buffer @ , r . centroids_weight == centroids_weight , r . reverse_merge == reverse_merge , {
+vx_documented_panic ( k >= 10 ) ;
+assert ( /*@C10.make.k_validated*/ k >= 10 ) ;
 let fudge = if k < 30 {
 30 }
 else {
@@ -327,6 +340,7 @@ return Err ( Error :: invalid_argument ( format! ( "k must be at least 10, got {
 proof {
 assert ( wsum ( Seq :: < Centroid > :: empty ( ) ) == 0 ) ;
 }
+assert ( /*@C17.td.make_k_established*/ k >= 10 ) ;
 Ok ( Self :: make ( k , false , vx_f64_infinity ( ) , vx_f64_neg_infinity ( ) , vec! [ ] , 0 , vec! [ ] , ) ) }
 
 
@@ -339,9 +353,10 @@ self . k }
 
 
 
-    fn rank ( & mut self , value : f64 ) -> ( r : Option < f64 > ) requires old ( self ) . wf ( ) , ! f_is_nan ( value ) ensures final ( self ) . wf ( ) , final ( self ) . same_cfg ( old ( self ) ) , final ( self ) . total ( ) == old ( self ) . total ( ) ,
+    fn rank ( & mut self , value : f64 ) -> ( r : Option < f64 > ) requires old ( self ) . wf ( ) , ensures
+/*@C10.rank_value_validated*/ ! f_is_nan ( value ) , final ( self ) . wf ( ) , final ( self ) . same_cfg ( old ( self ) ) , final ( self ) . total ( ) == old ( self ) . total ( ) ,
 /*@C10.rank_shape*/ r is None <==> old ( self ) . empty ( ) , {
-assert! ( ! value . is_nan ( ) ) ;
+vx_documented_panic ( ! value . is_nan ( ) ) ;
 if self . is_empty ( ) {
 return None ;
 }
@@ -362,9 +377,10 @@ self . view ( ) . rank ( value ) }
 
 
 
-    fn quantile ( & mut self , rank : f64 ) -> ( r : Option < f64 > ) requires old ( self ) . wf ( ) , f_in_unit ( rank ) ensures final ( self ) . wf ( ) , final ( self ) . same_cfg ( old ( self ) ) , final ( self ) . total ( ) == old ( self ) . total ( ) ,
+    fn quantile ( & mut self , rank : f64 ) -> ( r : Option < f64 > ) requires old ( self ) . wf ( ) , ensures
+/*@C10.quantile_rank_validated*/ f_in_unit ( rank ) , final ( self ) . wf ( ) , final ( self ) . same_cfg ( old ( self ) ) , final ( self ) . total ( ) == old ( self ) . total ( ) ,
 /*@C10.quantile_shape*/ r is None <==> old ( self ) . empty ( ) , {
-assert! ( vx_in_unit_interval ( & rank ) ) ;
+vx_documented_panic ( vx_in_unit_interval ( & rank ) ) ;
 if self . is_empty ( ) {
 return None ;
 }
@@ -473,7 +489,8 @@ min : self . min , max : self . max , centroids : & self . centroids , centroids
 
 
 
-    fn cdf ( & mut self , split_points : & [ f64 ] ) -> ( r : Option < Vec < f64 >> ) requires old ( self ) . wf ( ) , split_points @ . len ( ) == 1 ==> ! f_is_nan ( split_points @ [ 0 ] ) , forall | i : int | 0 <= i < split_points @ . len ( ) - 1 ==> f_lt ( # [ trigger ] split_points @ [ i ] , split_points @ [ i + 1 ] ) , ensures final ( self ) . wf ( ) , final ( self ) . total ( ) == old ( self ) . total ( ) ,
+    fn cdf ( & mut self , split_points : & [ f64 ] ) -> ( r : Option < Vec < f64 >> ) requires old ( self ) . wf ( ) , ensures
+/*@C10.split_points_validated*/ sp_valid ( split_points @ ) , final ( self ) . wf ( ) , final ( self ) . total ( ) == old ( self ) . total ( ) ,
 /*@C10.cdf_shape*/ r is None <==> old ( self ) . empty ( ) ,
 /*@C10.cdf_pmf_len*/ r matches Some ( v ) ==> v @ . len ( ) == split_points @ . len ( ) + 1 , {
 check_split_points ( split_points ) ;
@@ -486,7 +503,8 @@ self . view ( ) . cdf ( split_points ) }
 
 
 
-    fn pmf ( & mut self , split_points : & [ f64 ] ) -> ( r : Option < Vec < f64 >> ) requires old ( self ) . wf ( ) , split_points @ . len ( ) == 1 ==> ! f_is_nan ( split_points @ [ 0 ] ) , forall | i : int | 0 <= i < split_points @ . len ( ) - 1 ==> f_lt ( # [ trigger ] split_points @ [ i ] , split_points @ [ i + 1 ] ) , ensures final ( self ) . wf ( ) , final ( self ) . total ( ) == old ( self ) . total ( ) ,
+    fn pmf ( & mut self , split_points : & [ f64 ] ) -> ( r : Option < Vec < f64 >> ) requires old ( self ) . wf ( ) , ensures
+/*@C10.split_points_validated*/ sp_valid ( split_points @ ) , final ( self ) . wf ( ) , final ( self ) . total ( ) == old ( self ) . total ( ) ,
 /*@C10.pmf_shape*/ r is None <==> old ( self ) . empty ( ) ,
 /*@C10.cdf_pmf_len*/ r matches Some ( v ) ==> v @ . len ( ) == split_points @ . len ( ) + 1 , {
 check_split_points ( split_points ) ;
@@ -650,7 +668,8 @@ min : self . min , max : self . max , centroids : & self . centroids , centroids
 
 
 
-    fn cdf ( & self , split_points : & [ f64 ] ) -> ( r : Option < Vec < f64 >> ) requires split_points @ . len ( ) == 1 ==> ! f_is_nan ( split_points @ [ 0 ] ) , forall | i : int | 0 <= i < split_points @ . len ( ) - 1 ==> f_lt ( # [ trigger ] split_points @ [ i ] , split_points @ [ i + 1 ] ) , ensures
+    fn cdf ( & self , split_points : & [ f64 ] ) -> ( r : Option < Vec < f64 >> ) ensures
+/*@C10.split_points_validated*/ sp_valid ( split_points @ ) ,
 /*@C10.cdf_shape*/ r is None <==> self . centroids @ . len ( ) == 0 ,
 /*@C10.cdf_pmf_len*/ r matches Some ( v ) ==> v @ . len ( ) == split_points @ . len ( ) + 1 , {
 self . view ( ) . cdf ( split_points ) }
@@ -659,7 +678,8 @@ self . view ( ) . cdf ( split_points ) }
 
 
 
-    fn pmf ( & self , split_points : & [ f64 ] ) -> ( r : Option < Vec < f64 >> ) requires split_points @ . len ( ) == 1 ==> ! f_is_nan ( split_points @ [ 0 ] ) , forall | i : int | 0 <= i < split_points @ . len ( ) - 1 ==> f_lt ( # [ trigger ] split_points @ [ i ] , split_points @ [ i + 1 ] ) , ensures
+    fn pmf ( & self , split_points : & [ f64 ] ) -> ( r : Option < Vec < f64 >> ) ensures
+/*@C10.split_points_validated*/ sp_valid ( split_points @ ) ,
 /*@C10.pmf_shape*/ r is None <==> self . centroids @ . len ( ) == 0 ,
 /*@C10.cdf_pmf_len*/ r matches Some ( v ) ==> v @ . len ( ) == split_points @ . len ( ) + 1 , {
 self . view ( ) . pmf ( split_points ) }
@@ -702,17 +722,19 @@ Some ( self . max ) }
 
 
 
-    fn rank ( & self , value : f64 ) -> ( r : Option < f64 > ) requires ! f_is_nan ( value ) ensures
+    fn rank ( & self , value : f64 ) -> ( r : Option < f64 > ) ensures
+/*@C10.rank_value_validated*/ ! f_is_nan ( value ) ,
 /*@C10.rank_shape*/ r is None <==> self . centroids @ . len ( ) == 0 {
-assert! ( ! value . is_nan ( ) ) ;
+vx_documented_panic ( ! value . is_nan ( ) ) ;
 self . view ( ) . rank ( value ) }
 
 
 
 
-    fn quantile ( & self , rank : f64 ) -> ( r : Option < f64 > ) requires f_in_unit ( rank ) ensures
+    fn quantile ( & self , rank : f64 ) -> ( r : Option < f64 > ) ensures
+/*@C10.quantile_rank_validated*/ f_in_unit ( rank ) ,
 /*@C10.quantile_shape*/ r is None <==> self . centroids @ . len ( ) == 0 {
-assert! ( vx_in_unit_interval ( & rank ) ) ;
+vx_documented_panic ( vx_in_unit_interval ( & rank ) ) ;
 self . view ( ) . quantile ( rank ) }
 
 
@@ -720,6 +742,7 @@ self . view ( ) . quantile ( rank ) }
 
     fn unfreeze ( self ) -> ( r : TDigestMut ) requires self . wf ( ) ensures r . wf ( ) ,
 /*@C10.unfreeze_keeps_total*/ r . total ( ) == self . centroids_weight , r . k == self . k , r . centroids @ == self . centroids @ , {
+assert ( /*@C17.td.make_k_established*/ self . k >= 10 ) ;
 TDigestMut :: make ( self . k , self . reverse_merge , self . min , self . max , self . centroids , self . centroids_weight , vec! [ ] , ) }
 
 
@@ -741,7 +764,8 @@ impl TDigestView<'_> {
       ensures r is None <==> self.centroids@.len() == 0
     { unimplemented!() }
 
-    fn pmf ( & self , split_points : & [ f64 ] ) -> ( r : Option < Vec < f64 >> ) requires split_points @ . len ( ) == 1 ==> ! f_is_nan ( split_points @ [ 0 ] ) , forall | i : int | 0 <= i < split_points @ . len ( ) - 1 ==> f_lt ( # [ trigger ] split_points @ [ i ] , split_points @ [ i + 1 ] ) , ensures
+    fn pmf ( & self , split_points : & [ f64 ] ) -> ( r : Option < Vec < f64 >> ) ensures
+/*@C10.split_points_validated*/ sp_valid ( split_points @ ) ,
 /*@C10.pmf_shape*/ r is None <==> self . centroids @ . len ( ) == 0 ,
 /*@C10.cdf_pmf_len*/ r matches Some ( v ) ==> v @ . len ( ) == split_points @ . len ( ) + 1 , {
 let mut buckets = self . cdf ( split_points ) ? ;
@@ -761,7 +785,8 @@ Some ( buckets ) }
 
 
 
-    fn cdf ( & self , split_points : & [ f64 ] ) -> ( r : Option < Vec < f64 >> ) requires split_points @ . len ( ) == 1 ==> ! f_is_nan ( split_points @ [ 0 ] ) , forall | i : int | 0 <= i < split_points @ . len ( ) - 1 ==> f_lt ( # [ trigger ] split_points @ [ i ] , split_points @ [ i + 1 ] ) , ensures
+    fn cdf ( & self , split_points : & [ f64 ] ) -> ( r : Option < Vec < f64 >> ) ensures
+/*@C10.split_points_validated*/ sp_valid ( split_points @ ) ,
 /*@C10.cdf_shape*/ r is None <==> self . centroids @ . len ( ) == 0 ,
 /*@C10.cdf_pmf_len*/ r matches Some ( v ) ==> v @ . len ( ) == split_points @ . len ( ) + 1 , {
 check_split_points ( split_points ) ;
